@@ -453,8 +453,8 @@ class C23(Check):
             funcs = [f for f in ccorpus.fixed_functions(arch) if f[0] in names]
             progs += c21.CHECK.compile(wd, arch, "-O1", funcs, "d%d" % shard, "rw")
         rng = random.Random(seed)
-        if tier == "thorough" or shard % 2 == 0:
-            arch = ARCHS[(shard // 2) % len(ARCHS)]
+        if tier == "thorough" or shard % 4 == 0:
+            arch = ARCHS[(shard // 4) % len(ARCHS)]
             funcs = ccorpus.gen_functions(rng.getrandbits(30) + 1, 1, arch)
             progs += c21.CHECK.compile(wd, arch, rng.choice(["-O1", "-O2"]), funcs, "r%d" % shard, "rw2")
         return progs
